@@ -161,6 +161,7 @@ CANARIES = {
         ("oldest-returned", "stix2/datastore/memory.py", "text", ['candidate["modified"] > stix_obj["modified"]', 'candidate["modified"] < stix_obj["modified"]'], "C11.newest"),
     ],
     "C12": [
+        ('non-string-values-prune', 'stix2/datastore/filesystem.py', 'text', ['        if filter_.property in ("type", "id") and not (\n            isinstance(filter_.value, str) or (', '        if filter_.property in ("type", "id") and False and not (\n            isinstance(filter_.value, str) or ('], 'C12.optimiser-table'),
         ('dot-names-pass-the-entry-test', 'stix2/datastore/filesystem.py', 'text', ['                    or filename in (".", ".."):\n', '                    or filename in ():\n'], 'C12.optimiser-table'),
         ('layout-guessed-from-the-query', 'stix2/datastore/filesystem.py', 'text', ['            type_is_versioned = _is_versioned_type_dir(type_path, type_dir)', '            type_is_versioned = _is_versioned_type_dir(type_path, type_dir) if auth_ids.auth_type != AuthSet.WHITE else True'], 'C12.optimiser-table'),
         ("operator-flipped", "stix2/datastore/filters.py", "flip-compare", ["Filter._check_property", "GtE -> Gt", "stix_obj_property >= filter_value"], "C12.operator-table"),
